@@ -99,7 +99,7 @@ def run(tier, seed):
         ck.violation("harness does not build against /repo", {"kind": "build", "stderr": err[-3000:]}, no_input=True)
         return ck.finish("n/a", TRUSTED, [])
     rng = ck.rng
-    nprog = 60 if tier == "quick" else 800
+    nprog = 60 if tier == "quick" else 3000
 
     progs = []
     corpus = vlib.os.path.join(vlib.VERIF, "corpus", "C06")
